@@ -1251,3 +1251,36 @@ package regexp2
 //@     invariant forall p int {mark(p)} :: old(r.Runtextpos) <= p && p < start && p <= latest ==> !AnyPrefAt(r.Runtext, p, prefixes, ignoreCase)
 //@     invariant forall k int {mark(k)} {len(prefixes[k])} :: 0 <= k && k <= rangeindex ==> !helpers.OccursAt(r.Runtext, start, prefixes[k])
 //@     decreases len(prefixes) - rangeindex
+
+// ---------------------------------------------------------------------------------------------
+// C02 / C03: the raw-string fixed-distance literal filter (stringprefixfilter.go), at the level of bytes: it reports the
+// candidate of the FIRST occurrence of the literal (from startAt) from which `distance` runes can be stepped back
+// without reaching startAt; occurrences before it were all too close to startAt. (The step from this text-level
+// statement to StringPrefixFilterSpec is the meaning of the published fact, assumed like the other facts.)
+// ---------------------------------------------------------------------------------------------
+// all of the first n backward steps from byte i stay above startAt
+//@ spec func BackClear(s string, i int, n int, startAt int) bool = forall m int {Back(s, i, m)} :: 0 <= m && m < n ==> Back(s, i, m) > startAt
+//@ func stringFixedDistanceCandidateStart(input string, startAt int, byteIndex int, distance int) (c int, ok bool)
+//@   props C02 C03 C10
+//@   requires 0 <= startAt && 0 <= byteIndex && byteIndex <= len(input) && 0 <= distance
+//@   ensures[ok]   ok ==> c == Back(input, byteIndex, distance) && BackClear(input, byteIndex, distance, startAt) && 0 <= c && c <= byteIndex
+//@   ensures[fail] !ok ==> !BackClear(input, byteIndex, distance, startAt)
+//@   loop 0:
+//@     invariant 0 <= i && i <= distance && candidateByteIndex == Back(input, byteIndex, i) && 0 <= candidateByteIndex && candidateByteIndex <= byteIndex && BackClear(input, byteIndex, i, startAt)
+//@     decreases distance - i
+
+//@ spec func MinBytes(s string, at int, n int) bool = 0 <= at && at <= len(s) && (n <= 0 || len(s) - at >= n)
+//@ func stringFixedDistanceStringFilter$1(input string, startAt int) (candidateByteIndex int, ok bool)
+//@   props C02 C03 C10
+//@   free minRequiredLength *int, literal *string, distance *int
+//@   requires len((*literal)) > 0 && 0 <= (*distance) && mark((*literal)[0])
+//@   ensures[hit]   ok ==> exists i int {Back(input, i, (*distance))} :: startAt <= i && SubAt(input, i, (*literal)) && BackClear(input, i, (*distance), startAt) && candidateByteIndex == Back(input, i, (*distance)) &&
+//@                     MinBytes(input, candidateByteIndex, (*minRequiredLength)) && forall k int {mark(k - startAt)} :: startAt <= k && k < i && SubAt(input, k, (*literal)) ==> !BackClear(input, k, (*distance), startAt)
+//@   ensures[miss]  !ok && MinBytes(input, startAt, (*minRequiredLength)) ==>
+//@                     (forall k int {mark(k - startAt)} :: startAt <= k && SubAt(input, k, (*literal)) ==> !BackClear(input, k, (*distance), startAt)) ||
+//@                     (exists i int {Back(input, i, (*distance))} :: startAt <= i && SubAt(input, i, (*literal)) && BackClear(input, i, (*distance), startAt) && !MinBytes(input, Back(input, i, (*distance)), (*minRequiredLength)) &&
+//@                         forall k int {mark(k - startAt)} :: startAt <= k && k < i && SubAt(input, k, (*literal)) ==> !BackClear(input, k, (*distance), startAt))
+//@   loop 0:
+//@     invariant 0 <= startAt && startAt <= searchAt && startAt <= len(input) && MinBytes(input, startAt, (*minRequiredLength))
+//@     invariant forall k int {mark(k - startAt)} :: startAt <= k && k < searchAt && SubAt(input, k, (*literal)) ==> !BackClear(input, k, (*distance), startAt)
+//@     decreases len(input) - searchAt + 1
